@@ -25,8 +25,20 @@ Lemma every_builtin_every_setting : forall n, In n builtin_names -> forall dm an
 Proof. apply all_settings_covered_sound. exact serial_coverage. Qed.
 
 Lemma every_omp_builtin_every_setting : forall n, In n omp_builtin_names -> forall dm ann, exists i d,
-  In (i, d) table /\ i_name i = n /\ i_dm i = dm /\ i_annexed i = ann /\ i_omp i <> None.
-Proof. apply omp_settings_covered_sound. exact omp_coverage. Qed.
+  In (i, d) table /\ i_name i = n /\ i_dm i = dm /\ i_annexed i = ann /\ omp_code i = 1%nat.
+Proof. apply form_covered_sound. exact omp_coverage. Qed.
+
+Lemma every_region_builtin_every_setting : forall n, In n region_builtin_names -> forall dm ann, exists i d,
+  In (i, d) table /\ i_name i = n /\ i_dm i = dm /\ i_annexed i = ann /\ omp_code i = 2%nat.
+Proof. apply form_covered_sound. exact region_coverage. Qed.
+
+Lemma every_reduction_reprod_every_setting : forall n, In n reprod_builtin_names -> forall dm ann, exists i d,
+  In (i, d) table /\ i_name i = n /\ i_dm i = dm /\ i_annexed i = ann /\ omp_code i = 3%nat.
+Proof. apply form_covered_sound. exact reprod_coverage. Qed.
+
+Lemma sum_builtins_are_reductions :
+  forallb (fun p => negb (is_reduction_spec (d_spec (snd p))) || existsb (String.eqb (i_name (fst p))) reduction_builtin_names) table = true.
+Proof. exact reductions_are_the_sum_builtins. Qed.
 
 Lemma names_agree :
   forallb (fun n => existsb (String.eqb n) doc_names) builtin_names = true /\
